@@ -12,6 +12,7 @@ mod c14;
 mod c10;
 mod c18;
 mod c12;
+mod c19;
 
 fn main() {
     std::panic::set_hook(Box::new(|_| {}));
@@ -53,6 +54,8 @@ fn main() {
         "c18-record" => c18::record(rest),
         "c12-replay" => c12::replay(rest),
         "c12-record" => c12::record(rest),
+        "c19-replay" => c19::replay(rest),
+        "c19-record" => c19::record(rest),
         x => {
             eprintln!("unknown subcommand {}", x);
             std::process::exit(2);
